@@ -111,14 +111,17 @@ class Ctx(object):
             ev["coverage"]["exhaustive"] = bool(self.exhaustive)
         if self.known_hit:
             ev["coverage"]["known_findings_hit"] = [k for k, _ in self.known_hit]
-        os.makedirs(os.path.join(VERIF, "evidence"), exist_ok=True)
-        with open(os.path.join(VERIF, "evidence", self.pid + ".json"), "w") as fh:
-            json.dump(ev, fh, indent=1, sort_keys=True, default=str)
-            fh.write("\n")
+        if not os.environ.get("VERIF_NO_EVIDENCE"):
+            os.makedirs(os.path.join(VERIF, "evidence"), exist_ok=True)
+            with open(os.path.join(VERIF, "evidence", self.pid + ".json"), "w") as fh:
+                json.dump(ev, fh, indent=1, sort_keys=True, default=str)
+                fh.write("\n")
         for key, what in self.known_hit:
             print("KNOWN-FINDING: property=%s %s [%s]" % (self.pid, what, key))
         if self.violations:
-            os.makedirs(os.path.join(VERIF, "replays"), exist_ok=True)
+            rdir = os.path.join(VERIF, "replays") if not os.environ.get("VERIF_NO_EVIDENCE") else \
+                os.path.join(VERIF, "replays", "selftest")
+            os.makedirs(rdir, exist_ok=True)
             seen = set()
             n = 0
             for key, detail in self.violations:
@@ -128,7 +131,7 @@ class Ctx(object):
                 n += 1
                 if n > 20:
                     break
-                path = os.path.join(VERIF, "replays", "%s_%s_%d.json" % (self.pid, self.tier, n))
+                path = os.path.join(rdir, "%s_%s_%d.json" % (self.pid, self.tier, n))
                 with open(path, "w") as fh:
                     json.dump({"property": self.pid, "key": key, "detail": detail, "seed": self.seed,
                                "tier": self.tier}, fh, indent=1, default=str)
